@@ -351,8 +351,13 @@ class GhostSolver:
     def tracked(self):
         return [(f, n) for fr in self.frames for f, n in fr if n is not None]
 
+    def shown(self):
+        """what z3 shows of the assertions (assertions(), to_smt2(), sexpr()): a tracked assertion appears as
+        `literal => assertion`; that the literals are assumed by every check is not part of it"""
+        return [z3.Implies(z3.Bool(n), f) if n is not None else f for fr in self.frames for f, n in fr]
+
     def assertions(self):
-        return self.stack()
+        return self.shown()
 
     def set(self, *a, **kw):
         self.params.update(kw)
@@ -422,10 +427,10 @@ class GhostSolver:
         if self.kind == "Optimize":
             # z3.Optimize has no to_smt2 method
             raise AttributeError("'Optimize' object has no attribute 'to_smt2'")
-        return SmtText(self.stack())
+        return SmtText(self.shown())
 
     def sexpr(self):
-        return SmtText(self.stack())
+        return SmtText(self.shown())
 
     def __getattr__(self, name):
         if name.startswith("__"):
@@ -440,6 +445,34 @@ class SmtText(str):
         s = super().__new__(cls, "<smt2 text>")
         s.formulas = list(formulas)
         return s
+
+    # the little text surgery an exporter may do on it: cut at the final (check-sat), append commands
+    def rpartition(self, sep):
+        if sep != "(check-sat)":
+            raise sym.Unsupported(f"SMT-LIB text: rpartition({sep!r})")
+        return SmtText(self.formulas), sep, "\n"
+
+    def __add__(self, other):
+        if isinstance(other, SmtText):
+            return SmtText(self.formulas + other.formulas)
+        if not isinstance(other, str):
+            return NotImplemented
+        extra = []
+        for line in other.splitlines():
+            line = line.strip()
+            if not line or line == "(check-sat)":
+                continue
+            if line.startswith("(assert ") and line.endswith(")"):
+                body = line[len("(assert ") : -1].strip()
+                name = body[1:-1] if body.startswith("|") and body.endswith("|") else body
+                if body and "(" not in body and " " not in name.strip("|"):
+                    extra.append(z3.Bool(name))  # (assert <Boolean symbol>)
+                    continue
+                if body.startswith("|") and body.endswith("|") and body.count("|") == 2:
+                    extra.append(z3.Bool(name))
+                    continue
+            raise sym.Unsupported(f"SMT-LIB text: appended command not understood: {line[:60]!r}")
+        return SmtText(self.formulas + extra)
 
 
 class GhostPlainSolver(GhostSolver):
